@@ -883,10 +883,17 @@ pub fn check_sender(c: &SenderCase) -> CaseResult {
     }
     let mut drv = SenderDriver::new(&c.sender)?;
     let mut tois: std::collections::BTreeMap<u128, Scheme> = Default::default();
+    // FEC 129 carries the source block length in every payload id: expected k per block (RFC 5052)
+    let mut sbl: std::collections::BTreeMap<u128, Vec<u32>> = Default::default();
     for o in &c.objs {
         match drv.add(o) {
             Ok((toi, _)) => {
-                tois.insert(toi, effective_oti(&c.sender, o).scheme);
+                let eff = effective_oti(&c.sender, o);
+                tois.insert(toi, eff.scheme);
+                let tl = drv.sender.get_objects_in_fdt().get(&toi).map(|d| d.transfer_length).unwrap_or(0);
+                if let Some(p) = ref_partition(eff, tl) {
+                    sbl.insert(toi, (0..p.n).map(|s| p.k(s) as u32).collect());
+                }
             }
             Err(_) => return Ok(CaseInfo::excluded("domain: object refused")),
         }
@@ -911,6 +918,7 @@ pub fn check_sender(c: &SenderCase) -> CaseResult {
     let version = if c.sender.rfc3926 { 1u8 } else { 2u8 };
     let mut ids: Vec<u32> = vec![];
     let mut wide = false;
+    let mut sbl_checked = false;
     for r in &drv.log {
         let (bytes, dec) = match &r.kind {
             RecKind::Pkt { bytes, dec } => (bytes, dec),
@@ -935,6 +943,18 @@ pub fn check_sender(c: &SenderCase) -> CaseResult {
             if d.fdt.is_some() {
                 return Err(format!("an object packet (TOI {}) carries EXT_FDT", d.lct.toi));
             }
+            if *scheme == Scheme::Rs28Us {
+                let want = sbl.get(&d.lct.toi).and_then(|k| k.get(d.pid.sbn as usize)).copied();
+                if let (Some(want), Some(got)) = (want, d.pid.sbl) {
+                    if got as u32 != want {
+                        return Err(format!(
+                            "TOI {} SBN {} ESI {}: the FEC payload id announces a source block length of {} symbols, the block has {} (RFC 5052 partition of the object)",
+                            d.lct.toi, d.pid.sbn, d.pid.esi, got, want
+                        ));
+                    }
+                    sbl_checked = true;
+                }
+            }
             wide |= d.lct.toi >= 1 << 16;
         }
         if let Some(t) = &d.time {
@@ -958,6 +978,7 @@ pub fn check_sender(c: &SenderCase) -> CaseResult {
     info.nt(wraps || wide || c.sender.rfc3926 || c.sender.tsi >= 1 << 16);
     info.label_if(wraps, "instance id wraps");
     info.label_if(wide, "TOI >= 2^16");
+    info.label_if(sbl_checked, "source block length of FEC 129 payload ids checked");
     info.label_if(c.sender.rfc3926, "RFC 3926 profile");
     info.label(format!("instances={}", ids.len().min(4)));
     Ok(info)
